@@ -71,28 +71,8 @@ def check(run: Run) -> None:
     fmts = [c.args[0].value for c in find_calls(fd.node, "strftime") if c.args and isinstance(c.args[0], ast.Constant)]
     run.check("C09.R2", "dates are compared as %Y%m%d strings", fmts == ["%Y%m%d"], "_to_comparable_date", f"formats {fmts}",
               f"dates are keyed with {fmts}, which does not sort chronologically as a string", file=FILE_T, node=fd.node)
-    fo = model.func(f"{X}._order_by_keyfunc")
-    joins = [c for c in find_calls(fo.node, "join") if isinstance(c.func.value, ast.Constant)]
-    ok = False
-    detail = "no join"
-    if len(joins) == 1 and joins[0].args:
-        g = joins[0].args[0]
-        if isinstance(g, (ast.GeneratorExp, ast.ListComp)) and len(g.generators) == 1:
-            gen = g.generators[0]
-            src_ok = ast.unparse(gen.iter) == "order_bys" or _alias_of(fo.node, gen.iter, "order_bys")
-            ok = not gen.ifs and src_ok
-            detail = "filtered" if gen.ifs else ("iterates " + ast.unparse(gen.iter))
-        elif isinstance(g, ast.Name):
-            detail = "joins " + g.id
-    filt = any(isinstance(n, (ast.GeneratorExp, ast.ListComp)) and any(gg.ifs for gg in n.generators) for n in ast.walk(fo.node))
-    run.check("C09.R2", "the composite key joins every component key, in ORDER BY order", ok and not filt, "_order_by_keyfunc", joins[0] if joins else "no join",
-              f"component keys are dropped or re-ordered when the composite ordering key is built ({detail}): an empty component (e.g. the priority of a plain note) "
-              "shifts the later components into its position", file=FILE_X, node=fo.node)
-    # _order_notes_by sorts leaves by that key and keeps the group structure
-    fon = model.func(f"{X}._order_notes_by")
-    srt = [c for c in ast.walk(fon.node) if isinstance(c, ast.Call) and ast.unparse(c.func) == "sorted"]
-    run.check("C09.R2", "notes of a group are sorted by the composite key", len(srt) == 1 and kwarg(srt[0], "key") is not None and not kwarg(srt[0], "reverse"), "_order_notes_by",
-              srt[0] if srt else "no sorted", "the leaf lists are not sorted by the composite key", file=FILE_X, node=fon.node)
+    # (that the composite key joins every ORDER BY component positionally, and that every leaf list is sorted by it, is decided by the
+    #  multi-component scenarios of pipeline_eval: R1 / "ordered by ...")
 
     # ---- R3 wiring of GroupByType / selectors
     ci_g = model.cls(f"{T}.GroupByType")
@@ -325,6 +305,7 @@ class _Pipeline:
         sel = select(st) if callable(select) else select
         self.holder["query"] = st.alloc(HObj("obj", cls="zorg.domain.models._query.Query", fields=dict(select=sel, where=None, group_by=tuple(self.G[g] for g in group_by),
                                                                                                       order_by=tuple(self.O[o] for o in order_by))))
+        self.holder["rendered"] = self._keys_of(st.fork(), self.O["ALPHA"], notes)
         glabels = [self._keys_of(st.fork(), self.G[g], notes) for g in group_by]
         okeys = [self._keys_of(st.fork(), self.O[o], notes) for o in order_by]
         if any(x is None for x in glabels + okeys):
@@ -393,6 +374,26 @@ def pipeline_eval(run: Run, model: PyModel, P: "_Pipeline") -> None:
         run.check("C09.R1", "section then kind: every selected note once, under its group headers, when one section title extends another", got == exp, "execute_with_session", f"section/kind: {got}",
                   f"S note G section type over notes in sections 'Work' (a todo and a note) and 'Work 2024' (a note and a todo) renders {got}, expected {exp}: groups are formed over notes that are not sorted "
                   "by the tuple of group keys (e.g. by the keys glued into one string), so a label occurs twice and the later chunk replaces the earlier one", file=FILE_X, node=fe.node)
+
+    # several ORDER BY components, one of them empty for some notes (a plain note has no priority): the composite key is positional
+    specs3 = [dict(body="c", fp="p.zo", line=5, status="OPEN_TODO", priority="P2"), dict(body="a", fp="p.zo", line=1), dict(body="b", fp="q.zo", line=9, status="OPEN_TODO", priority="P1"),
+              dict(body="d", fp="p.zo", line=2, status="CLOSED_TODO", priority="P1"), dict(body="e", fp="q.zo", line=3), dict(body="P0", fp="p.zo", line=4), dict(body="f", fp="p.zo", line=7, status="OPEN_TODO", priority="P1")]
+    for label, gb, ob in (("ordered by priority then position", [], ["PRIORITY", "NONE"]), ("ordered by kind, priority, text", [], ["NOTE_TYPE", "PRIORITY", "ALPHA"]),
+                          ("grouped by file, ordered by priority then text", ["FILE"], ["PRIORITY", "ALPHA"]), ("ordered by text then priority", [], ["ALPHA", "PRIORITY"])):
+        r = P.go("C09.R2", label, specs3, P.SS["NOTE"], gb, ob)
+        if r is None:
+            continue
+        raw, groups = r
+        rendered = P.holder.get("rendered")
+        if rendered is None:
+            run.undecided("C09.R2", "execute_with_session", f"{label}: cannot render the scenario's notes")
+            continue
+        got = [l.strip() for l in raw.split("\n") if l.strip()]
+        exp = [x for hs, members in P.headers(groups) for x in hs + [rendered[i].strip() for i in members]]
+        run.check("C09.R2", f"{label}: notes of a group come out in the order of the composite key (every ORDER BY component, in order, empty ones keeping their position)", got == exp,
+                  "execute_with_session", f"{label}: {got}",
+                  f"S note {label} over todos P2/P1/P1(closed)/P1 and three plain notes (one whose text is 'P0') renders {got}, expected {exp}: the leaf lists are not sorted by the "
+                  "positional join of all ORDER BY keys (a component dropped, filtered when empty, re-ordered, or the list not sorted at all)", file=FILE_X, node=fe.node)
 
     def count_sel(st):
         return P.I.construct(f"{T}.SelectAggregation", [], dict(func_name="count", select_type=P.SS["NOTE"]), st)[0][0]
